@@ -126,6 +126,37 @@ func c31Gen(t *rapid.T) c31Case {
 			total = extra
 		}
 	}
+	// "slow deactivation" shape (1 case in 4): OnDeactivate lasts 30/60 ms and the
+	// other senders' first sends to identity 0 land while that hook is running,
+	// for the two on-turn paths: an explicit PoisonPill, or (reentrant grain) the
+	// passivation pill that fires deactivateAfter after the opening Ask
+	if rapid.IntRange(0, 3).Draw(t, "slow_deact_shape") == 0 {
+		c.DeaMs = rapid.SampledFrom([]int{30, 60}).Draw(t, "slow_dea_ms")
+		if len(c.Threads) == 1 {
+			c.Threads = append(c.Threads, []c31Op{{Kind: "ask"}})
+		}
+		first := &c.Threads[0][0]
+		first.GapMs, first.Ident, first.HandleMs, first.SelfPoison = 0, 0, 0, false
+		base := 0
+		if rapid.Bool().Draw(t, "slow_via_passivation") {
+			c.Reentrant = true
+			first.Kind = "ask"
+			base = c.DeactMs
+		} else {
+			first.Kind = "poison"
+		}
+		for i := 1; i < len(c.Threads); i++ {
+			op := &c.Threads[i][0]
+			op.Ident, op.SelfPoison, op.HandleMs = 0, false, 0
+			if op.Kind == "poison" {
+				op.Kind = "tell"
+			}
+			op.GapMs = base + c.DeaMs*rapid.SampledFrom([]int{10, 30, 50, 70, 90}).Draw(t, "slow_gap_pct")/100
+		}
+		if extra := base + 2*c.DeaMs; extra > total {
+			total = extra
+		}
+	}
 	c.StopAtMs = -1
 	if rapid.IntRange(0, 9).Draw(t, "has_stop") < 3 {
 		c.StopAtMs = rapid.IntRange(0, total+c.DeactMs).Draw(t, "stop_at_ms")
@@ -146,25 +177,31 @@ type c31Event struct {
 	Msg   int
 	Gid   string
 	Note  string
+	Inst  int64 // Go instance of the grain (hook events only)
 }
 
 type c31World struct {
-	mu     sync.Mutex
-	seq    int64
-	events []c31Event
-	actSeq atomic.Int64
-	actDur time.Duration
-	deaDur time.Duration
-	sys    ActorSystem
-	bg     sync.WaitGroup // explicit deactivations started by handlers
+	mu      sync.Mutex
+	seq     int64
+	events  []c31Event
+	actSeq  atomic.Int64
+	instSeq atomic.Int64
+	actDur  time.Duration
+	deaDur  time.Duration
+	sys     ActorSystem
+	bg      sync.WaitGroup // explicit deactivations started by handlers
 }
 
 func (w *c31World) log(kind, ident string, act int64, msg int, note string) int64 {
+	return w.logInst(kind, ident, act, msg, note, 0)
+}
+
+func (w *c31World) logInst(kind, ident string, act int64, msg int, note string, inst int64) int64 {
 	gid := c31Gid()
 	w.mu.Lock()
 	w.seq++
 	s := w.seq
-	w.events = append(w.events, c31Event{Seq: s, Kind: kind, Ident: ident, Act: act, Msg: msg, Gid: gid, Note: note})
+	w.events = append(w.events, c31Event{Seq: s, Kind: kind, Ident: ident, Act: act, Msg: msg, Gid: gid, Note: note, Inst: inst})
 	w.mu.Unlock()
 	return s
 }
@@ -216,6 +253,7 @@ type c31Reply struct{ Act int64 }
 // c31Grain is instantiated by the framework as a zero value for every activation
 // of a not-yet-resident identity.
 type c31Grain struct {
+	inst  atomic.Int64 // identity of this Go object within the case
 	act   atomic.Int64
 	world atomic.Pointer[c31World]
 	name  atomic.Pointer[string]
@@ -236,17 +274,21 @@ func (g *c31Grain) OnActivate(_ context.Context, props *GrainProps) error {
 	name := props.Identity().Name()
 	g.world.Store(w)
 	g.name.Store(&name)
+	if g.inst.Load() == 0 {
+		g.inst.CompareAndSwap(0, w.instSeq.Add(1))
+	}
+	inst := g.inst.Load()
 	a := w.actSeq.Add(1)
 	prev := g.act.Swap(a)
 	note := ""
 	if prev != 0 {
 		note = fmt.Sprintf("instance reused, previous activation %d", prev)
 	}
-	w.log("act_enter", name, a, int(prev), note)
+	w.logInst("act_enter", name, a, int(prev), note, inst)
 	if w.actDur > 0 {
 		time.Sleep(w.actDur)
 	}
-	w.log("act_exit", name, a, 0, "")
+	w.logInst("act_exit", name, a, 0, "", inst)
 	return nil
 }
 
@@ -299,11 +341,14 @@ func (g *c31Grain) OnDeactivate(context.Context, *GrainProps) error {
 		return nil
 	}
 	a := g.act.Load()
-	w.log("deact_enter", g.ident(), a, 0, c31Cause())
+	inst := g.inst.Load()
+	w.logInst("deact_enter", g.ident(), a, 0, c31Cause(), inst)
 	if w.deaDur > 0 {
 		time.Sleep(w.deaDur)
 	}
-	w.log("deact_exit", g.ident(), a, 0, "")
+	// the activation number is the one read at entry: a concurrent re-activation
+	// of this instance must not re-label the end of this hook
+	w.logInst("deact_exit", g.ident(), a, 0, "", inst)
 	return nil
 }
 
@@ -575,6 +620,84 @@ func c31Judge(x *vfkit.X, c c31Case, events []c31Event, sends []*c31Send, stopEr
 	}
 	sort.Slice(order, func(i, j int) bool { return order[i] < order[j] })
 	const inf = int64(1) << 62
+
+	// No lifecycle hook of a grain instance starts while another lifecycle hook of
+	// the same instance is in progress: OnActivate never overlaps OnDeactivate on
+	// one Go instance. Judged first so that no listed finding can mask it.
+	type hook struct {
+		kind        string // act | deact
+		enter, exit int64
+		act         int64
+		gid, cause  string
+	}
+	hooks := map[int64][]*hook{}
+	var insts []int64
+	for _, e := range events {
+		if e.Inst == 0 {
+			continue
+		}
+		switch e.Kind {
+		case "act_enter", "deact_enter":
+			if _, ok := hooks[e.Inst]; !ok {
+				insts = append(insts, e.Inst)
+			}
+			k := "act"
+			cause := ""
+			if e.Kind == "deact_enter" {
+				k, cause = "deact", e.Note
+			}
+			hooks[e.Inst] = append(hooks[e.Inst], &hook{kind: k, enter: e.Seq, act: e.Act, gid: e.Gid, cause: cause})
+		case "act_exit", "deact_exit":
+			k := "act"
+			if e.Kind == "deact_exit" {
+				k = "deact"
+			}
+			hs := hooks[e.Inst]
+			for i := len(hs) - 1; i >= 0; i-- {
+				if hs[i].kind == k && hs[i].exit == 0 && hs[i].gid == e.Gid {
+					hs[i].exit = e.Seq
+					break
+				}
+			}
+		}
+	}
+	for _, inst := range insts {
+		hs := hooks[inst]
+		for _, a := range hs {
+			if a.kind != "act" {
+				continue
+			}
+			for _, d := range hs {
+				if d.kind != "deact" {
+					continue
+				}
+				ax, dx := a.exit, d.exit
+				if ax == 0 {
+					ax = inf
+				}
+				if dx == 0 {
+					dx = inf
+				}
+				if a.enter < dx && d.enter < ax {
+					// the deactivation path names the finding; an activation that was
+					// deactivated twice (listed R1 finding: off-turn passivation racing a
+					// PoisonPill) is named after that, whichever of the two hooks overlaps
+					path := d.cause
+					n := 0
+					for _, d2 := range hs {
+						if d2.kind == "deact" && d2.act == d.act {
+							n++
+						}
+					}
+					if n > 1 {
+						path = "double-deactivation"
+					}
+					x.Class("hook_overlap_" + path)
+					add("onactivate-overlaps-ondeactivate:"+path, "identity instance #%d: OnActivate (activation %d) [%d,%d] overlaps OnDeactivate (activation %d, via %s) [%d,%d] on the same Go instance", inst, a.act, a.enter, a.exit, d.act, d.cause, d.enter, d.exit)
+				}
+			}
+		}
+	}
 	byIdent := map[string][]*c31Act{}
 	for _, id := range order {
 		a := acts[id]
